@@ -33,6 +33,10 @@ typedef struct {
 	sqfs_data_reader_t *data;
 	sqfs_dir_reader_t *rd;
 	sqfs_id_table_t *id;
+
+	/* the directory we are listing and the iterator we were opened from */
+	sqfs_u32 dir_inum;
+	sqfs_dir_iterator_t *parent;
 } iterator_t;
 
 static int it_next(sqfs_dir_iterator_t *base, sqfs_dir_entry_t **out)
@@ -103,6 +107,8 @@ static int it_read_link(sqfs_dir_iterator_t *base, char **out)
 static int it_open_subdir(sqfs_dir_iterator_t *base, sqfs_dir_iterator_t **out)
 {
 	iterator_t *it = (iterator_t *)base;
+	const iterator_t *up;
+	int ret;
 
 	*out = NULL;
 
@@ -114,8 +120,22 @@ static int it_open_subdir(sqfs_dir_iterator_t *base, sqfs_dir_iterator_t **out)
 		return SQFS_ERROR_NOT_DIR;
 	}
 
-	return sqfs_dir_iterator_create(it->rd, it->id, it->data, it->xattr,
-					it->inode, out);
+	/*
+	  On a damaged image, a directory can (directly or indirectly) contain
+	  itself. Refuse to descend into a directory that we are already inside.
+	 */
+	for (up = it; up != NULL; up = (const iterator_t *)up->parent) {
+		if (up->dir_inum == it->inode->base.inode_number)
+			return SQFS_ERROR_LINK_LOOP;
+	}
+
+	ret = sqfs_dir_iterator_create(it->rd, it->id, it->data, it->xattr,
+				       it->inode, out);
+	if (ret != 0)
+		return ret;
+
+	((iterator_t *)*out)->parent = sqfs_grab(base);
+	return 0;
 }
 
 static void it_ignore_subdir(sqfs_dir_iterator_t *it)
@@ -166,6 +186,7 @@ static void it_destroy(sqfs_object_t *obj)
 	sqfs_drop(it->rd);
 	sqfs_drop(it->data);
 	sqfs_drop(it->xattr);
+	sqfs_drop(it->parent);
 	sqfs_free(it);
 }
 
@@ -203,6 +224,7 @@ int sqfs_dir_iterator_create(sqfs_dir_reader_t *rd,
 
 	it->id = sqfs_grab(id);
 	it->rd = sqfs_grab(rd);
+	it->dir_inum = inode->base.inode_number;
 
 	if (data != NULL)
 		it->data = sqfs_grab(data);
